@@ -387,9 +387,15 @@ static void dfs(W& w, const Sys& s, std::vector<int>& path, int target, const st
 }
 
 static bool abortedUpdate(W& w, const std::vector<int>& hist, int fop, int n, int after, bool judgeNow);
+static void longHistory(W& w, int o);
 static void replay(W& w, const std::string& cs)
 {
     auto kv = mc::kv_parse(cs);
+    if (kv.count("long"))
+    {
+        longHistory(w, atoi(kv["long"].c_str()));
+        return;
+    }
     if (kv.count("fop"))
     {
         std::vector<int> hist;
@@ -467,6 +473,35 @@ static bool abortedUpdate(W& w, const std::vector<int>& hist, int fop, int n, in
     judge(w, s, where + fmt(", repeated, then %s", opName(kOps[after]).c_str()));
     w.outcome(stateHash(s, 9));
     return true;
+}
+
+static void longHistory(W& w, int o)
+{
+    const int nops = (int) kOps.size();
+    Sys s;
+    std::vector<int> cyc;
+    for (int k = 0; k < nops; ++k)
+        if (kOps[k].kind == 'C' || kOps[k].kind == 'I' || (o >= 2 && (kOps[k].kind == 'D' || kOps[k].kind == 'O')))
+            cyc.push_back(k);
+    uint64_t next = 1;
+    for (uint64_t i = 0; i < 131074; ++i)
+    {
+        apply(s, kOps[cyc[(i * (o % 2 ? 7 : 1)) % cyc.size()]]);
+        if (o % 2)
+            lookAround(s);
+        if (i + 2 >= next && i <= next + 1)
+            judge(w, s, fmt("after %llu updates", (unsigned long long) i + 1));
+        if (i > next + 1)
+            next *= 2;
+        w.add(mc::C_TRANS, 1);
+    }
+    for (int k = 0; k < nops; ++k)
+        if (kOps[k].kind == 'r' || kOps[k].kind == 'R')
+        {
+            apply(s, kOps[k]);
+            judge(w, s, "removals after the long history");
+        }
+    w.outcome(stateHash(s, 13));
 }
 
 struct BfsRec
@@ -647,31 +682,8 @@ int main(int argc, char** argv)
         auto desc = [&] { return fmt("long=%d", (int) o); };
         if (!w.begin_case(desc))
             return;
-        Sys s;
-        std::vector<int> cyc;
-        for (int k = 0; k < nops; ++k)
-            if (kOps[k].kind == 'C' || kOps[k].kind == 'I' || (o >= 2 && (kOps[k].kind == 'D' || kOps[k].kind == 'O')))
-                cyc.push_back(k);
-        uint64_t next = 1;
-        for (uint64_t i = 0; i < 131074; ++i)
-        {
-            apply(s, kOps[cyc[(i * (o % 2 ? 7 : 1)) % cyc.size()]]);
-            if (o % 2)
-                lookAround(s);
-            if (i + 2 >= next && i <= next + 1)
-                judge(w, s, fmt("after %llu updates", (unsigned long long) i + 1));
-            if (i > next + 1)
-                next *= 2;
-            w.add(mc::C_TRANS, 1);
-        }
-        for (int k = 0; k < nops; ++k)
-            if (kOps[k].kind == 'r' || kOps[k].kind == 'R')
-            {
-                apply(s, kOps[k]);
-                judge(w, s, "removals after the long history");
-            }
+        longHistory(w, (int) o);
         w.add(mc::C_TRACES, 1);
-        w.outcome(stateHash(s, 13));
     });
     // fault injection at every allocation of every update (memory exhaustion inside the tracker)
     {
